@@ -20,10 +20,10 @@ def materialise(case: dict, root: str, sf_database: str = ":memory:") -> dict:
         os.chmod(os.path.join(root, name), mode)
     cwl = os.path.join(root, "wf.cwl")
     with open(cwl, "w", encoding="utf-8") as f:
-        json.dump(case["doc"], f, indent=1)
+        json.dump(case["doc"], f, indent=1, ensure_ascii=False)
     job = os.path.join(root, "job.json")
     with open(job, "w", encoding="utf-8") as f:
-        json.dump(case.get("job", {}), f, indent=1)
+        json.dump(case.get("job", {}), f, indent=1, ensure_ascii=False)
     sf = os.path.join(root, "streamflow.yml")
     with open(sf, "w", encoding="utf-8") as f:
         json.dump({"version": "v1.0", "database": {"type": "default", "config": {"connection": sf_database}}}, f)
